@@ -22,4 +22,8 @@ def extra_checks(prop, tier, seed):
         from pyvc import bounded
 
         return bounded.float_to_str_contract(prop, tier, seed)
+    if prop == "C04":
+        from pyvc import bounded
+
+        return bounded.enclosure_contract(prop, tier, seed)
     return None
